@@ -215,6 +215,13 @@ def cases(tier, seed):
       add(mono=[0, 0], units=units, bias=bias, imin=[None, -1.0], imax=[None, None])
       add(mono=[1, 1, 0, -1], units=units, bias=bias, imin=[0.0, 0.0, None, -2.0], imax=[1.0, 2.0, 0.5, None])
   add(mono=[1], units=1, bias=True, imin=[0.0], imax=[1.0])
+  # bounds whose only specified values are falsy (0.0), one-sided lists, a single bounded input
+  add(mono=[1, 0], units=1, bias=True, imin=[0.0, 0.0])
+  add(mono=[0, -1, 0], units=2, bias=False, imin=[0.0, None, None])
+  add(mono=[1, 1], units=1, bias=True, imax=[0.0, 0.0])
+  add(mono=[0, 0], units=2, bias=True, imin=[0.0, None], imax=[None, 0.0])
+  add(mono=[1, 0], units=1, bias=False, imin=[None, -0.0], imax=[None, None])
+  add(mono=[0], units=1, bias=True, imin=[0.0])
   add(mono=[1, 1, 0], units=2, mdom=[[0, 1]])
   add(mono=[1, 1, 1], units=1, mdom=[[0, 1], [1, 2]], bias=False)
   add(mono=[1, 1, 0], units=2, rdom=[[0, 1]], imin=[0.0, -1.0, None], imax=[2.0, 1.0, None])
